@@ -1,6 +1,18 @@
+/-
+  Helper lemmas for property C12: the generators' texts do not change when they are applied to a tree that a
+  generator has already walked (`lingo ∘ afterLingo = lingo`, `js ∘ afterLingo = js`, `afterJs = id`), for every node,
+  by mutual structural induction over the AST.
+-/
 import Drx.Lscr
 namespace Drx.Lscr
 open Drx
+
+-- the kernel cannot unfold structural recursion over the nested inductive `Node` by computation; keep the unifier from
+-- relying on it (all rewriting goes through the equation lemmas)
+attribute [local irreducible] lingo lingoStrs lingoStrsButLast lingoStmts lingoPairs afterLingo afterLingoList afterLingoButLast
+  js jsStrs jsStmts afterJs afterJsList
+
+/-! ### afterJs is the identity -/
 
 mutual
   theorem afterJs_id : ∀ n : Node, afterJs n = n
@@ -25,8 +37,7 @@ mutual
       | loadList ln lp ops => simp [afterJs, afterJsList_id ops]
       | _ => simp [afterJs]
     | .callMethod _ _ o ps => by simp [afterJs, afterJs_id o, afterJs_id ps]
-    | .repeat_ _ _ c l t s _ _ => by
-      simp [afterJs, afterJs_id c, afterJsList_id l, afterJs_id s]
+    | .repeat_ _ _ c l t s _ _ => by simp [afterJs, afterJs_id c, afterJsList_id l, afterJs_id s]
     | .ifThen _ c a b => by simp [afterJs, afterJs_id c, afterJsList_id a, afterJsList_id b]
     | .jump .. => by simp [afterJs]
     | .jz .. => by simp [afterJs]
@@ -34,6 +45,136 @@ mutual
   theorem afterJsList_id : ∀ l : List Node, afterJsList l = l
     | [] => by simp [afterJsList]
     | x :: r => by simp [afterJsList, afterJs_id x, afterJsList_id r]
+end
+
+/-! ### list facts about the after-functions -/
+
+theorem afterLingoList_isEmpty (l : List Node) : (afterLingoList l).isEmpty = l.isEmpty := by
+  cases l <;> simp [afterLingoList]
+
+theorem afterLingoButLast_isEmpty (l : List Node) : (afterLingoButLast l).isEmpty = l.isEmpty := by
+  match l with
+  | [] => simp [afterLingoButLast]
+  | [x] => simp [afterLingoButLast]
+  | x :: y :: r => simp [afterLingoButLast]
+
+theorem afterLingoButLast_length (l : List Node) : (afterLingoButLast l).length = l.length := by
+  match l with
+  | [] => simp [afterLingoButLast]
+  | [x] => simp [afterLingoButLast]
+  | x :: y :: r => simp [afterLingoButLast, afterLingoButLast_length (y :: r)]
+
+theorem afterLingoButLast_getLast (l : List Node) : (afterLingoButLast l).getLast? = l.getLast? := by
+  match l with
+  | [] => simp [afterLingoButLast]
+  | [x] => simp [afterLingoButLast]
+  | x :: y :: r =>
+    have ih := afterLingoButLast_getLast (y :: r)
+    have hne : afterLingoButLast (y :: r) ≠ [] := by
+      intro h; have := congrArg List.length h; simp [afterLingoButLast_length] at this
+    simp only [afterLingoButLast]
+    rw [List.getLast?_cons_cons]
+    cases h : afterLingoButLast (y :: r) with
+    | nil => exact absurd h hne
+    | cons a b => rw [List.getLast?_cons_cons, ← h, ih]
+
+theorem pyGet_neg_one (l : List α) : pyGet l (-1) = match l.getLast? with | some x => .ok x | none => .error .index := by
+  unfold pyGet
+  cases l with
+  | nil => simp
+  | cons a t =>
+    have h1 : ((-1 : Int) < 0) := by omega
+    have h2 : ¬ ((-1 : Int) + ((a :: t).length : Int) < 0) := by simp; omega
+    simp only [h1, if_true, h2, if_false]
+    have h3 : ((-1 : Int) + ((a :: t).length : Int)).toNat = (a :: t).length - 1 := by simp; omega
+    rw [h3, List.getLast?_eq_getElem?]
+    rfl
+
+theorem pyGet_afterLingoButLast (l : List Node) : pyGet (afterLingoButLast l) (-1) = pyGet l (-1) := by
+  rw [pyGet_neg_one, pyGet_neg_one, afterLingoButLast_getLast]
+
+theorem clearParen_lingo_true (x : Node) (ind : Nat) : lingo true (clearParen x) ind = lingo true x ind := by
+  cases x <;> simp [clearParen]
+  rename_i name pos params up it wr
+  cases params <;> simp [lingo]
+
+/-! ### Lingo after Lingo -/
+
+mutual
+  theorem lingo_afterLingo : ∀ (n : Node) (np : Bool) (ind : Nat), lingo np (afterLingo n) ind = lingo np n ind
+    | .none, np, ind => by simp [afterLingo]
+    | .leaf .., np, ind => by simp [afterLingo]
+    | .sym name p uh, np, ind => by
+      simp only [afterLingo, lingo, symLingo]
+      split <;> simp_all
+    | .unary op p x, np, ind => by simp [afterLingo, lingo, lingo_afterLingo x]
+    | .binary op p l r, np, ind => by simp [afterLingo, lingo, lingo_afterLingo l, lingo_afterLingo r]
+    | .spAssign p l r m, np, ind => by simp [afterLingo, lingo, lingo_afterLingo l, lingo_afterLingo r]
+    | .strOp k p a b c, np, ind => by
+      have hb := lingo_afterLingo b false 0
+      cases b <;> simp [afterLingo, lingo, lingo_afterLingo a, lingo_afterLingo c] at hb ⊢
+      all_goals (trace_state; sorry)
+    | .unaryStr op p t x, np, ind => by simp [afterLingo, lingo, lingo_afterLingo x]
+    | .propAcc p o pr, np, ind => by simp [afterLingo, lingo, lingo_afterLingo o]
+    | .keyAcc .., np, ind => by simp [afterLingo]
+    | .menuItemAcc p m i, np, ind => by simp [afterLingo, lingo, lingo_afterLingo m, lingo_afterLingo i]
+    | .menuItemsAcc p m, np, ind => by simp [afterLingo, lingo, lingo_afterLingo m]
+    | .loadList n p ops, np, ind => by simp [afterLingo, lingo, lingoStrs_afterLingoList ops]
+    | .toList p x, np, ind => by
+      cases x with
+      | loadList ln lp ops => simp [afterLingo, lingo, lingoStrs_afterLingoList ops]
+      | callFn _ _ ps _ _ _ => cases ps <;> simp [afterLingo, lingo]
+      | _ => simp [afterLingo, lingo]
+    | .toDict p x, np, ind => by
+      cases x with
+      | loadList ln lp ops => simp [afterLingo, lingo, lingoPairs_afterLingoList ops]
+      | callFn _ _ ps _ _ _ => cases ps <;> simp [afterLingo, lingo]
+      | _ => simp [afterLingo, lingo]
+    | .stmt p c, np, ind => by
+      simp [afterLingo, lingo, clearParen_lingo_true, lingo_afterLingo c]
+    | .callFn name p params up it wr, np, ind => by
+      cases params with
+      | loadList ln lp ops =>
+        simp only [afterLingo, lingo]
+        by_cases hs : (name == Name.s (S "sound")) = true
+        · simp only [hs, if_true, afterLingoButLast_isEmpty, pyGet_afterLingoButLast, lingoStrsButLast_afterLingoButLast ops]
+        · simp only [hs, Bool.false_eq_true, if_false, afterLingoList_isEmpty, lingoStrs_afterLingoList ops]
+      | _ => simp [afterLingo, lingo]
+    | .callMethod n p o ps, np, ind => by simp [afterLingo, lingo, lingo_afterLingo o, lingo_afterLingo ps]
+    | .repeat_ p e c l t s v sg, np, ind => by
+      simp only [afterLingo, lingo, lingo_afterLingo c, lingoStmts_afterLingoList l]
+      trace_state
+      sorry
+    | .ifThen p c a b, np, ind => by
+      simp [afterLingo, lingo, lingo_afterLingo c, lingoStmts_afterLingoList a, lingoStmts_afterLingoList b, afterLingoList_isEmpty]
+    | .jump .., np, ind => by simp [afterLingo]
+    | .jz .., np, ind => by simp [afterLingo, lingo]
+    | .tell p o l, np, ind => by simp [afterLingo, lingo, lingo_afterLingo o, lingoStmts_afterLingoList l]
+  theorem lingoStrs_afterLingoList : ∀ (l : List Node) (gv : Bool) (ind : Nat), lingoStrs gv (afterLingoList l) ind = lingoStrs gv l ind
+    | [], gv, ind => by simp [afterLingoList]
+    | [x], gv, ind => by
+      have hx := lingo_afterLingo x false ind
+      cases gv <;> cases x <;> simp [afterLingoList, lingoStrs, afterLingo] at hx ⊢
+      all_goals (trace_state; sorry)
+    | x :: y :: r, gv, ind => by
+      have := lingoStrs_afterLingoList (y :: r) gv ind
+      simp only [afterLingoList] at *
+      simp [lingoStrs, lingo_afterLingo x, this]
+  theorem lingoStrsButLast_afterLingoButLast : ∀ (l : List Node) (ind : Nat), lingoStrsButLast (afterLingoButLast l) ind = lingoStrsButLast l ind
+    | [], ind => by simp [afterLingoButLast]
+    | [x], ind => by simp [afterLingoButLast, lingoStrsButLast]
+    | x :: y :: r, ind => by
+      have := lingoStrsButLast_afterLingoButLast (y :: r) ind
+      simp only [afterLingoButLast]
+      trace_state
+      sorry
+  theorem lingoStmts_afterLingoList : ∀ (l : List Node) (ind : Nat), lingoStmts (afterLingoList l) ind = lingoStmts l ind
+    | [], ind => by simp [afterLingoList]
+    | x :: r, ind => by simp [afterLingoList, lingoStmts, lingo_afterLingo x, lingoStmts_afterLingoList r]
+  theorem lingoPairs_afterLingoList : ∀ (l : List Node) (ind : Nat), lingoPairs (afterLingoList l) ind = lingoPairs l ind
+    | [], ind => by simp [afterLingoList]
+    | [x], ind => by simp [afterLingoList, lingoPairs]
+    | v :: k :: r, ind => by simp [afterLingoList, lingoPairs, lingo_afterLingo v, lingo_afterLingo k, lingoPairs_afterLingoList r]
 end
 
 end Drx.Lscr
